@@ -56,6 +56,12 @@ pub struct RawConn {
 
 /// connect the real mcs/sec/global layers (selected protocol: SSL) against the reference server
 pub fn raw_connect(cfg: &ClientCfg, p: ServerParams, devs: Vec<Deviation>) -> RawConn {
+    raw_connect_as(cfg, p, devs, x224::Protocols::ProtocolSSL)
+}
+
+/// the same with the security protocol the x224 layer reports as selected (standard RDP security: the upper layers
+/// then run as they would after a server that selected PROTOCOL_RDP)
+pub fn raw_connect_as(cfg: &ClientCfg, p: ServerParams, devs: Vec<Deviation>, selected: x224::Protocols) -> RawConn {
     // the client's "random" values are the same in every run and in a replay
     struct Unpattern;
     impl Drop for Unpattern {
@@ -69,7 +75,7 @@ pub fn raw_connect(cfg: &ClientCfg, p: ServerParams, devs: Vec<Deviation>) -> Ra
     let link = MemLink::with_peer(peer.clone());
     let sh = link.sh.clone();
     let t = tpkt::Client::new(Link::new(Stream::Raw(link)));
-    let x = x224::Client::verif_new_raw(t, x224::Protocols::ProtocolSSL);
+    let x = x224::Client::verif_new_raw(t, selected);
     let mut m = mcs::Client::new(x);
     if let Err(e) = m.connect(cfg.name.clone(), cfg.width, cfg.height, layout_of(cfg.layout)) {
         return RawConn { client: None, peer, sh, error: Some(("mcs".into(), format!("{:?}", e))) };
